@@ -21,7 +21,7 @@ TCrash ==
         /\ (e.at <= Len(Steps(s)) => Steps(s)[e.at].l = e.label)      \* bound to the recorded step list
         \* Recover's and Redeliver's post-conditions decide the event; a failing event is reported
         \* (one line per event) and the validation continues so that every crash point is decided
-        /\ ((RecoverOK(o) /\ RedeliverOK(o)) \/ PrintT(<<"CRASHVIOLATION", l>>))
+        /\ (IF RecoverOK(o) /\ RedeliverOK(o) THEN TRUE ELSE PrintT(<<"CRASHVIOLATION", l>>))
         /\ sc' = s /\ done' = e.at - 1 /\ phase' = "redelivered" /\ out' = o
 
 TSpec == TInit /\ [][TCrash]_tvars
